@@ -398,8 +398,52 @@ func VF_C13_L2_QueryConverge() {
 	if zzvf.ParamOr("resub", 0) == 1 && owner[0].count[rids[0]] == 1 && owner[1].count[rids[1]] == 1 {
 		s0, s1 := owner[0].cl.c.subs[rids[0]], owner[1].cl.c.subs[rids[1]]
 		shared := s0 != nil && s1 != nil && s0.resourceSub == s1.resourceSub
-		owner[0].issue(vfReqKind{method: "unsubscribe." + rids[0], verb: "unsubscribe", rid: rids[0], count: 1})
+		byDisconnect := nconn == 2 && zzvf.Choose("leave-by-disconnect", 2) == 1
+		if byDisconnect {
+			zzvf.Note("client A disconnects")
+			w.disconnect(owner[0].cl)
+		} else {
+			owner[0].issue(vfReqKind{method: "unsubscribe." + rids[0], verb: "unsubscribe", rid: rids[0], count: 1})
+		}
 		w.settle()
+		if shared {
+			// the other subscription still uses the shared query resource:
+			// a query event is followed by one query request for it and
+			// its answer reaches the remaining subscriber
+			zzvf.Reach("c13l2-shared-after-leave")
+			before := len(w.mq.reqs)
+			w.mq.event("event.test.model", "query", []byte(`{"subject":"_QS3_"}`))
+			w.settle()
+			qreqs := 0
+			for _, q := range w.mq.reqs[before:] {
+				if q.subject == "_QS3_" {
+					qreqs++
+				}
+			}
+			zzvf.Assert(qreqs == 1, "shared-query-resource-kept-while-another-subscriber-uses-it")
+			svc = "v3"
+			for _, q := range w.mq.pending() {
+				if q.subject == "_QS3_" {
+					w.mq.answer(q, []byte(`{"result":{"model":{"string":"v3"}}}`), nil)
+				}
+			}
+			w.settle()
+			got := false
+			for _, fr := range owner[1].observe() {
+				if fr.Event == rids[1]+".change" {
+					got = true
+				}
+			}
+			zzvf.Assert(got, "remaining-subscriber-still-updated")
+		}
+		if byDisconnect {
+			for _, r := range runs[1:] {
+				for _, it := range r.issued {
+					zzvf.Assert(it.responses <= 1, "no-request-answered-twice")
+				}
+			}
+			return
+		}
 		gets := 0
 		for _, l := range w.mq.log {
 			if l == "R get.test.model" {
